@@ -129,7 +129,18 @@ def t6_nested_packages() -> Iterator[Dict[str, Any]]:
                    mod("r2", pkg=True), mod("y", 3, ops=flat(frm("r1.x", "X"), cls("Y", "X")))], "T6", form="two-roots")
 
 
-FAMILIES = [t1_base_chains, t2_star, t3_reexport, t4_cycles, t5_duplicates, t6_nested_packages]
+def t7_moved_class_with_moved_base() -> Iterator[Dict[str, Any]]:
+    """T7: a class that is itself re-exported and whose base (named through the defining module) was re-exported
+       by another module: the second base-resolution pass must not depend on where the class lives now."""
+    for form in ("plain", "star"):
+        imp_a = [frm("p.m0", "A")] if form == "plain" else [star("p.m0")]
+        yield project([mod("p", pkg=True), mod("m0", 1, ops=flat(cls("A"))),
+                       mod("m1", 1, ops=flat(frm("p.m0", "A", "RA"), cls("C", "RA"))),
+                       mod("m2", 1, ops=imp_a, all=["A"]),
+                       mod("m3", 1, ops=[frm("p.m1", "C", "RC")], all=["RC"])], "T7", form=form)
+
+
+FAMILIES = [t1_base_chains, t2_star, t3_reexport, t4_cycles, t5_duplicates, t6_nested_packages, t7_moved_class_with_moved_base]
 
 
 def all_projects(quick: bool) -> List[Dict[str, Any]]:
